@@ -105,6 +105,8 @@ pub struct Held {
     pub id: i64,
     pub method: String,
     pub params: Value,
+    /// the task whose poll produced this request
+    pub owner: Option<usize>,
 }
 
 pub struct Server {
@@ -127,6 +129,10 @@ pub struct Server {
     /// batch mode: messages sent back-to-back are admitted as soon as a slot is free (the default
     /// choice), as tower-lsp's read loop does; otherwise admission has the lowest priority
     pub admit_first: bool,
+    /// task being (or last) polled: server->client requests read right after belong to it
+    cur_task: Option<usize>,
+    /// (request id, owner task) for every request answered so far, in answer order
+    pub answered: Vec<(i64, Option<usize>, usize)>,
 }
 
 fn noop_waker() -> Waker {
@@ -161,6 +167,8 @@ impl Server {
             polls: 0,
             trace: vec![],
             admit_first: false,
+            cur_task: None,
+            answered: vec![],
         }
     }
 
@@ -230,7 +238,7 @@ impl Server {
                 Poll::Ready(Some(req)) => {
                     let (method, id, params) = req.into_parts();
                     match id {
-                        Some(Id::Number(n)) => self.held.push_back(Held { id: n, method: method.to_string(), params: params.unwrap_or(Value::Null) }),
+                        Some(Id::Number(n)) => self.held.push_back(Held { id: n, method: method.to_string(), params: params.unwrap_or(Value::Null), owner: self.cur_task }),
                         Some(_) => {}
                         None => self.log.push((method.to_string(), params.unwrap_or(Value::Null))),
                     }
@@ -277,6 +285,7 @@ impl Server {
     }
 
     fn poll_task(&mut self, i: usize) {
+        self.cur_task = Some(i);
         let _guard = self.rt.enter();
         let t = &mut self.tasks[i];
         t.queued = 0;
@@ -317,6 +326,7 @@ impl Server {
                     return Err(format!("answer:#{id} is not held"));
                 };
                 let h = self.held.remove(p).unwrap();
+                self.answered.push((h.id, h.owner, self.trace.len()));
                 let result = match h.method.as_str() {
                     "workspace/configuration" => json!([self.settings.clone()]),
                     _ => Value::Null,
